@@ -27,9 +27,14 @@ class ImplError(Exception):
         self.where, self.exc = where, exc
 
 
+def fresh(s):
+    """The same text as a string object created at run time (as a value read from settings.yaml is) - equal to, but not identical with, a literal."""
+    return s if s is None else ''.join(list(s))
+
+
 def load_engine(text, mode='first_match'):
     from tally.merchant_engine import parse_merchants
-    return parse_merchants(text, match_mode=mode)
+    return parse_merchants(text, match_mode=fresh(mode))
 
 
 def engine_result(eng, txn, rows):
@@ -55,8 +60,8 @@ def production_load(path, mode='first_match', clear=True):
     from tally import merchant_utils as mu
     if clear:
         mu.clear_engine_cache()
-    rules = mu.get_all_rules(path, match_mode=mode)
-    transforms = mu.get_transforms(path, match_mode=mode)
+    rules = mu.get_all_rules(path, match_mode=fresh(mode))
+    transforms = mu.get_transforms(path, match_mode=fresh(mode))
     return rules, transforms
 
 
@@ -142,5 +147,34 @@ def pipeline_results(rules, transforms, ptxns, rows, tmp):
         res.append({'triple': None if unknown else (g['merchant'], g['category'], g['subcategory']),
                     'fallback': g['merchant'] if unknown else None, 'tags': set(g.get('tags') or []),
                     'fields': {k: lang.norm(v) for k, v in (g.get('extra_fields') or {}).items()},
+                    'raw_description': g.get('raw_description'), 'amount': g['amount'], 'txn': g})
+    return res
+
+
+def legacy_parser_results(rules, ptxns, tmp, which):
+    """The deprecated `type: amex` / `type: boa` statement readers: same rules, their own way of handing the row to the matcher."""
+    import csv
+    from tally import parsers
+    path = os.path.join(tmp, 'legacy-%s.txt' % which)
+    if which == 'amex':
+        with open(path, 'w', newline='', encoding='utf-8') as f:
+            w = csv.writer(f)
+            w.writerow(['Date', 'Description', 'Amount'])
+            for t in ptxns:
+                w.writerow([t['date'].strftime('%m/%d/%Y'), t['description'], repr(t['amount'])])
+        fn = parsers.parse_amex
+    else:
+        with open(path, 'w', encoding='utf-8') as f:
+            for t in ptxns:
+                f.write('%s  %s  %.2f  1000.00\n' % (t['date'].strftime('%m/%d/%Y'), t['description'], t['amount']))
+        fn = parsers.parse_boa
+    try:
+        got = fn(path, rules)
+    except Exception as e:
+        raise ImplError('parse_' + which, e)
+    res = []
+    for g in got:
+        unknown = (g['category'] == 'Unknown' and g['subcategory'] == 'Unknown')
+        res.append({'triple': None if unknown else (g['merchant'], g['category'], g['subcategory']), 'tags': set(g.get('tags') or []),
                     'raw_description': g.get('raw_description'), 'amount': g['amount']})
     return res
